@@ -31,6 +31,105 @@ def load_table(name):
     return {e["key"]: e for e in j["entries"]}
 
 
+def _split_key(key):
+    """'<fn path>:<site shape>[#n]' -> (module of the function, site shape with parameter numbers erased).  The function path only
+    contains `::`, so the first single colon ends it; a key that is just a function path (R-FRAME) has an empty shape."""
+    parts = re.split(r"(?<!:):(?!:)", key, maxsplit=1)
+    fn, rest = parts[0], (parts[1] if len(parts) > 1 else "")
+    rest = re.sub(r"#\d+$", "", rest)
+    rest = re.sub(r"\bp\d+\b", "p", rest)
+    rest = re.sub(r"\barg\d+\b", "arg", rest)
+    return _module(fn), _commute(rest)
+
+
+def _module(fn):
+    """crate and top-level module of a function path (`<a::b::T as Tr>::f`, `a::b::T::f`, `a::b::f::{closure#0}` -> `a::b`)"""
+    fn = re.sub(r"(::\{closure#\d+\})+$", "", fn)
+    m = re.match(r"^<(.+?) as .+$", fn)
+    if m:
+        fn = m.group(1)
+    fn = fn.lstrip("<&' ")
+    segs = [x for x in re.split(r"::", re.sub(r"<.*$", "", fn)) if x]
+    return "::".join(segs[:2])
+
+
+def _commute(rest):
+    """operands of commutative operations in a canonical order (`1 + n` and `n + 1` are the same site)"""
+    m = re.match(r"^(Add|Mul|BitAnd|BitOr|BitXor)\(([a-z0-9]+);(.*)\)$", rest)
+    if not m:
+        return rest
+    ops = m.group(3)
+    depth = 0
+    cut = None
+    for i, ch in enumerate(ops):
+        if ch in "([{<":
+            depth += 1
+        elif ch in ")]}>":
+            depth -= 1
+        elif ch == "," and depth == 0:
+            cut = i
+    if cut is None:
+        return rest
+    a, b = ops[:cut], ops[cut + 1:]
+    if a > b:
+        a, b = b, a
+    return "%s(%s;%s,%s)" % (m.group(1), m.group(2), a, b)
+
+
+def _loose(rest):
+    """operation, integer type and constant operands only: `Add(u32;*,10)`, `[*;*]`, `*->i64`"""
+    m = re.match(r"^([A-Za-z:]+)\(([a-z0-9]+);(.*)\)$", rest)
+    if m:
+        ops = m.group(3)
+        # split the two operands at the top-level comma
+        depth = 0
+        cut = None
+        for i, ch in enumerate(ops):
+            if ch in "([{<":
+                depth += 1
+            elif ch in ")]}>":
+                depth -= 1
+            elif ch == "," and depth == 0:
+                cut = i
+        parts = [ops[:cut], ops[cut + 1:]] if cut is not None else [ops]
+        parts = [x if re.match(r"^-?\d+$", x) else "*" for x in parts]
+        if m.group(1) in ("Add", "Mul", "BitAnd", "BitOr", "BitXor"):
+            parts.sort()
+        return "%s(%s;%s)" % (m.group(1), m.group(2), ",".join(parts))
+    if rest.startswith("["):
+        return "[*;*]"
+    if "->" in rest:
+        return "*->" + rest.rsplit("->", 1)[1]
+    return rest
+
+
+class MovedSites:
+    """A reviewed entry follows its site when the code is moved within its module (helper extracted, helper inlined, function
+    renamed): an open site may take over the reason of a reviewed entry whose own site no longer exists anywhere in the program,
+    if module and site shape (operation, integer type, operand descriptors with parameter numbers erased) are the same.
+    Each stale entry is consumed once, so a *new* site next to a still existing reviewed one is never accepted."""
+
+    def __init__(self, reviewed, all_keys):
+        self.stale = {}
+        self.loose = {}      # second chance: same module, operation, type and constant operands (a refactoring that changes how
+                             # the other operand is computed, e.g. iterator chain -> loop, changes its descriptor)
+        self.used = set()
+        for k, e in reviewed.items():
+            if k not in all_keys:
+                mod, rest = _split_key(k)
+                self.stale.setdefault((mod, rest), []).append(e)
+                self.loose.setdefault((mod, _loose(rest)), []).append(e)
+
+    def take(self, key, want=None):
+        mod, rest = _split_key(key)
+        for table, k in ((self.stale, (mod, rest)), (self.loose, (mod, _loose(rest)))):
+            for e in table.get(k, []):
+                if id(e) not in self.used and (want is None or want(e)):
+                    self.used.add(id(e))
+                    return e
+        return None
+
+
 def armed(kind, ity, ops_desc):
     """is this assert in a class that traps on program-derived values here?"""
     k = kind.split(":")
@@ -199,6 +298,36 @@ def sites(prog, pred=None):
             yield f, b, t
 
 
+def site_key_base(f, t, ds):
+    kind = t["kind"]
+    opk = kind.replace("Overflow:", "")
+    return "%s:%s(%s;%s,%s)" % (f.path, opk, t["ity"], norm_shape(ds[0]), norm_shape(ds[1]) if len(ds) > 1 else "")
+
+
+def all_site_keys(prog):
+    if getattr(prog, "_arith_keys", None) is not None:
+        return prog._arith_keys
+    keys = set()
+    counts = {}
+    for f, b, t in sites(prog, None):
+        kind = t["kind"]
+        if generated(t["exp"]) or generated(f.exp):
+            continue
+        ds = [strip(f.desc_op(o)) for o in t["ops"]]
+        if kind.startswith(("DivisionByZero", "RemainderByZero")):
+            divisor = find_divisor(f, b, t)
+            ds = [ds[0], divisor if divisor is not None else ("unknown",)]
+        if kind == "OverflowNeg":
+            ds = [ds[0], ("const", None)]
+        if not armed(kind, t["ity"], ds):
+            continue
+        base = site_key_base(f, t, ds)
+        counts[base] = counts.get(base, 0) + 1
+        keys.add(base if counts[base] == 1 else "%s#%d" % (base, counts[base]))
+    prog._arith_keys = keys
+    return keys
+
+
 def run(prog, pred=None, floor=None):
     reviewed = load_table("arith_reviewed.json")
     obs = []
@@ -206,6 +335,7 @@ def run(prog, pred=None, floor=None):
     n_all = 0
     counts = {}
     used_reviewed = set()
+    moved = MovedSites(reviewed, all_site_keys(prog))
     for f, b, t in sites(prog, pred):
         kind = t["kind"]
         if generated(t["exp"]) or generated(f.exp):
@@ -233,6 +363,10 @@ def run(prog, pred=None, floor=None):
         if key in reviewed:
             used_reviewed.add(key)
             obs.append(ok(RULE, key, st, "reviewed: " + reviewed[key]["reason"]))
+            continue
+        mv = moved.take(key)
+        if mv:
+            obs.append(ok(RULE, key, st, "reviewed (site moved within its module; was %s): %s" % (short_path(re.split(r":[A-Za-z]+\(", mv["key"])[0]), mv["reason"])))
             continue
         obs.append(bad(RULE, key, st,
                        "%s on %s `%s` can trap: no dominating guard, idiom or reviewed-table entry discharges it "
